@@ -132,6 +132,20 @@ def run(ctx):
     for k, (bi, st) in util.ordinal_keys(oks, lambda it: "get_cursor_position_for|Ok"):
         payload = st["rv"]["o"][0]
         c = util.op_const(payload)
+        if c is None:
+            # `let first = 0; Ok(first)`: follow plain copies to a constant
+            pl_ = payload.get("c") or payload.get("m")
+            depth_ = 0
+            while pl_ is not None and not pl_["p"] and depth_ < 6:
+                depth_ += 1
+                d_ = b.single_def(pl_["l"])
+                if d_ is None or d_[1] == "t" or d_[2]["rv"]["k"] != "Use":
+                    break
+                o_ = d_[2]["rv"]["o"][0]
+                if util.op_const(o_) is not None:
+                    c = util.op_const(o_)
+                    break
+                pl_ = o_.get("c") or o_.get("m")
         on = lambda es: bool(es) and b.edges_dominate(es, bi)
         if c is not None:
             ok = c.get("v") == "0" and (on(start_e) or (on(before_e) and on(none_walk)))
